@@ -33,6 +33,11 @@ MUTANTS = [
     ('C08', 'negative index', 'torchtt/_tt_base.py', "cores_new.append(tn.reshape(self.cores[k][:, idx, :], [\n                                         self.__R[k], -1, self.R[k+1]]))", "cores_new.append(tn.reshape(self.cores[k][:, abs(idx), :], [\n                                         self.__R[k], -1, self.R[k+1]]))", 'tt_getitem'),
     ('C09', 'cat offset', 'torchtt/_extras.py', "                    offset2 += t.cores[i].shape[1]\n                    if i < len(tensors[0].N)-1:", "                    offset2 += t.cores[0].shape[1]\n                    if i < len(tensors[0].N)-1:", 'tt_cat'),
     ('C09', 'diag extract permute', 'torchtt/_extras.py', "tn.diagonal(c, dim1=1, dim2=2).permute([0, 2, 1])", "tn.diagonal(c, dim1=1, dim2=2).permute([1, 2, 0]).reshape([c.shape[0], -1, c.shape[3]])", 'tt_diag'),
+    ('C10', 'permute: comparison flipped', 'torchtt/_extras.py', 'if dims.index(i1) > dims.index(i2):', 'if dims.index(i1) < dims.index(i2):', 'tt_permute'),
+    ('C10', 'permute: eps not scaled, US on wrong side', 'torchtt/_extras.py', "                    US = U[:, :r_now]@tn.diag(S[:r_now])\n                    V = V[:r_now, :]\n\n                    cores[i] = tn.reshape(\n                        US, [cores[i].shape[0], cores[i+1].shape[1], -1])", "                    US = U[:, :r_now]\n                    V = tn.diag(S[:r_now]*S[:r_now])@V[:r_now, :]\n\n                    cores[i] = tn.reshape(\n                        US, [cores[i].shape[0], cores[i+1].shape[1], -1])", 'tt_permute'),
+    ('C10', 'reshape: merged core reshape order', 'torchtt/_extras.py', "core = tn.reshape(core, [core.shape[0], -1, core.shape[-1]])\n\n        idx_shape += 1", "core = tn.reshape(tn.permute(core, [0, 2, 1, 3]), [core.shape[0], -1, core.shape[-1]])\n\n        idx_shape += 1", 'tt_reshape'),
+    ('C10', 'to_qtt: per-core truncation again', 'torchtt/_tt_base.py', 'cores, _ = to_tt(core, Nnew, 0.0, sys.maxsize, is_sparse=False)', 'cores, _ = to_tt(core, Nnew, eps, rmax, is_sparse=False)', 'tt_to_qtt'),
+    ('C10', 'qtt_to_tens: stale so_far', 'torchtt/_tt_base.py', "                    so_far *= c.shape[1]", "                    so_far *= c.shape[0]", 'tt_qtt_to_tens'),
     ('C20', 'layer bias dropped for batches', 'torchtt/nn.py', "        return result+self.bias", "        return result+self.bias if D == d else result", 'tt_layer'),
 ]
 
